@@ -20,6 +20,7 @@ static Args ARGS;
 static long long TOTAL_STATES = 0, TOTAL_TRANS = 0;
 static std::vector<std::string> SAMPLES, PER_CLASS;
 static bool ALL_COMPLETE = true;
+static int CLASSES_LEFT = 0; static double FULL_DEADLINE = 0; static std::string ONLY;     // --only <substring of a class name> (triage aid)
 static const char* PROFILE = getenv("VERIF_C13_PROFILE");     // development aid: per-transition times appended to <value>.<pid>
 
 enum Kind { K_MUT = 0, K_ASSIGN = 1, K_COPYCTOR = 2, K_SWAP = 3 };
@@ -268,6 +269,10 @@ template <class T>
 static void run_class(const ClassAdapter<T>& A, int depth, const int init[3]) {
   compute_twins(A);
   if (REPLAY) { replay_class(A, init); return; }
+  if (!ONLY.empty() && A.name.find(ONLY) == std::string::npos) { if (CLASSES_LEFT > 0) --CLASSES_LEFT; return; }
+  // fair share of the run's time budget: what is left is divided among the classes still to be explored
+  // (thorough tier only, where the budget never suffices; the quick tier is sized to complete)
+  if (CLASSES_LEFT > 0) { double used = now_s() - ARGS.t0; if (ARGS.thorough()) ARGS.deadline = used + (FULL_DEADLINE - used) / CLASSES_LEFT; --CLASSES_LEFT; }
   double t0 = now_s();
   std::vector<POp> ops = all_ops(A);
   // ---- BFS over pool histories to depth-1 in a restartable child
@@ -394,6 +399,8 @@ int main(int argc, char** argv) {
   double t0 = now_s();
   limit_memory(8ULL << 30);
   if (!ARGS.replay.empty()) { REPLAY = true; load_replay(); }
+  FULL_DEADLINE = ARGS.deadline; ONLY = ARGS.opt("--only", "");
+  { const int per_group[13] = {0, 1, 1, 2, 2, 2, 7, 2, 4, 4, 4, 4, 19}; CLASSES_LEFT = per_group[VF_GROUP]; }
   const int i123[3] = {1, 2, 0};     // triangle, strip, universe
   const int deeper = ARGS.thorough() ? 1 : 0;   // cheap classes go one level deeper in the thorough tier
 #if VF_GROUP == 1
